@@ -267,6 +267,10 @@ def write_evidence(prop, mod, tier, seed, m, wall, nviol=0, inconclusive=None):
     }
     with open(os.path.join(OUT, "evidence", f"{prop}.json"), "w") as f:
         json.dump(ev, f, indent=1, default=str)
+    # the last run of each tier is also kept side by side (evidence/<id>.json is whichever ran last)
+    os.makedirs(os.path.join(OUT, "evidence", "by_tier", tier), exist_ok=True)
+    with open(os.path.join(OUT, "evidence", "by_tier", tier, f"{prop}.json"), "w") as f:
+        json.dump(ev, f, indent=1, default=str)
 
 
 COMMON_ASSUMPTIONS = [
